@@ -129,6 +129,11 @@ pub fn eval(g: &Grammar, c: &CDoc) -> Res {
                 }
                 Loaded::Panic(_) => unreachable!(),
             };
+            // the diagnostic class is stated for single deviations; with two the first one detected decides and the
+            // mapping is not defined by the property: only accept / reject and totality are judged
+            if c.deviations >= 2 {
+                return res;
+            }
             if let Some(want) = mapped_variant(&rej.class) {
                 match &svar {
                     Some(v) if v == want => {}
@@ -185,6 +190,12 @@ pub fn build_space(g: &Grammar, thorough: bool) -> Vec<CDoc> {
         }
     }
     if thorough {
+        // two deviations of the element under test (every ordered composition of two single deviations on every carrier)
+        for b in &base {
+            for d1 in corpus::deviations(g, b) {
+                all.extend(corpus::deviations(g, &d1));
+            }
+        }
         // deviations under an old and a middle version as well
         for b in &base {
             for v in [1usize, 3] {
@@ -234,7 +245,7 @@ pub fn run(tier: &str) -> Run {
     for c in ["rejected:NeedsBlock", "rejected:NeedsKeyword", "rejected:BadEnum", "rejected:UnknownTag", "rejected:TooMany", "rejected:Missing", "rejected:BlockTooNew", "rejected:EnumTooNew", "rejected:EndTag", "accepted-with-deprecation", "accepted"] {
         run.require(c, 3);
     }
-    run.rule = "every tag of the frozen grammar x {carrier, each optional slot once/twice, each enum item, pairs of slots} x six ASAP2 versions, plus for the element under test: every parameter deleted / replaced by each other lexical class, extra token, block form flipped, wrong end tag, unknown block first/last, required element missing. Oracle: reference interpreter over the frozen grammar + field-by-field match of the Debug tree. distinct = distinct text; non-trivial = not plainly accepted".into();
+    run.rule = "every tag of the frozen grammar x {carrier, each optional slot once/twice, each enum item, pairs of slots} x six ASAP2 versions, plus for the element under test: every parameter deleted / replaced by each other lexical class, extra token, block form flipped, wrong end tag, unknown block first/last, required element missing; thorough: every composition of two such deviations on every carrier and optional-slot document (accept / reject and model only). Oracle: reference interpreter over the frozen grammar + field-by-field match of the Debug tree. distinct = distinct text; non-trivial = not plainly accepted".into();
     run.assumptions = vec!["frozen grammar (model/a2l_171.grammar) is the A2L 1.7.1 reference; agreement with the repository's DSL is reported in coverage.frozen_grammar_equals_repo_dsl".into()];
     run
 }
